@@ -7,6 +7,7 @@ from ..algebra import NC, ToNC
 from ..report import AnalysisError
 from ..srcmodel import norm
 from ..amatch import AM
+from ..flow import expand
 from ..state import StateAnalysis, attr_reads, attr_writes, self_attr
 from ..vocab import VocabDA, asserted_membership, compared_literals, doc_bullets, option_attr, test_literals
 
@@ -246,27 +247,30 @@ def rule_c(ctx, sa, fa, acc_f, ls):
     ctx.ob(R, se.qname, "setup Schur complement is D . J^-1 . D^T (D the block cached as self.D, J^-1 the inverse flux diagonal)", all(se_ok) and schur_s is not None
            and schur_s == NC.sym(s_D) @ NC.sym(s_J) @ NC.sym(s_D).T(), f"{se_ok} {schur_s!r}", se.node)
     ctx.ob(R, se.qname, "reduced Jacobian = constant sub-block + Schur complement", se_ok[2], norm(attrs.get("reduced_jacobian", ast.Constant(0))), se.node)
-    # eliminate_flux (local names are located by shape, not by spelling)
-    env = env_of(ef)
+    # eliminate_flux: decided on the returned triple, with every once-bound local replaced by its definition
     pj, pr = ef.params[1], ef.params[2]
     conv = ToNC(env={}, symbolize=sym_slices)
-    am = AM(ef)
-    j_ok = am.has(ef.node, f"J_inv = sps.diags(1.0 / {pj}.diagonal()[self.flux_slice])") is not None
-    rj_ok = am.has(ef.node, "reduced_jacobian = self.jacobian_subblock + schur_complement") is not None
-    rr_ok = am.has(ef.node, f"reduced_residual = {pr}[self.reduced_system_slice].copy()") is not None
-    n_J, n_S, n_RJ, n_RR = (am.actual(k) or k for k in ("J_inv", "schur_complement", "reduced_jacobian", "reduced_residual"))
-    J = NC.sym(n_J)
+    rets = [r.value for r in ast.walk(ef.node) if isinstance(r, ast.Return) and r.value is not None]
+    ctx.need(len(rets) == 1 and isinstance(rets[0], ast.Tuple) and len(rets[0].elts) == 3, f"{ef.qname}: does not return one (reduced Jacobian, reduced rhs, J^-1) triple")
+    e_RJ, e_RR, e_J = rets[0].elts
+    J_txt = f"diags(1.0 / {pj}.diagonal()[self.flux_slice])"
+    xJ = conv(expand(ef.node, e_J))
+    J = NC.sym(J_txt)
     D, DT = NC.sym("self.D"), NC.sym("self.DT")
-    schur = ToNC(env={}, symbolize=sym_slices)(env[n_S]) if n_S in env else None
-    ctx.ob(R, ef.qname, "Schur complement is self.D . J^-1 . self.DT", schur == D @ J @ DT, repr(schur), ef.node)
-    ctx.ob(R, ef.qname, "J^-1 is the inverse of the diagonal of the flux block", j_ok, norm(env.get(n_J, ast.Constant(0))), ef.node)
-    ctx.ob(R, ef.qname, "reduced Jacobian = constant sub-block + Schur complement", rj_ok, norm(env.get(n_RJ, ast.Constant(0))), ef.node)
-    aug = [st for st in ef.node.body if isinstance(st, ast.AugAssign) and norm(st.target) == n_RR]
-    ok = rr_ok and len(aug) == 1 and isinstance(aug[0].op, ast.Sub) \
-        and conv(aug[0].value) == D @ J @ NC.sym(f"[{pr}[self.flux_slice]]")
-    ctx.ob(R, ef.qname, "reduced rhs = r[reduced] - D . J^-1 . r[flux]", ok, f"{[norm(a) for a in aug]}", ef.node)
-    rets = [norm(r.value) for r in ast.walk(ef.node) if isinstance(r, ast.Return)]
-    ctx.ob(R, ef.qname, "returns (reduced Jacobian, reduced rhs, J^-1)", rets == [f"({n_RJ}, {n_RR}, {n_J})"], str(rets), ef.node)
+    ctx.ob(R, ef.qname, "J^-1 is the inverse of the diagonal of the flux block", xJ == J, repr(xJ), ef.node)
+    xRJ = conv(expand(ef.node, e_RJ))
+    ctx.ob(R, ef.qname, "Schur complement is self.D . J^-1 . self.DT", xRJ - NC.sym("self.jacobian_subblock") == D @ J @ DT, repr(xRJ), ef.node)
+    ctx.ob(R, ef.qname, "reduced Jacobian = constant sub-block + Schur complement", xRJ == NC.sym("self.jacobian_subblock") + D @ J @ DT, repr(xRJ), ef.node)
+    ok = False
+    desc = ""
+    if isinstance(e_RR, ast.Name):
+        inits = [st for st in ast.walk(ef.node) if isinstance(st, ast.Assign) and len(st.targets) == 1 and norm(st.targets[0]) == e_RR.id]
+        aug = [st for st in ast.walk(ef.node) if isinstance(st, ast.AugAssign) and norm(st.target) == e_RR.id]
+        desc = f"{[norm(a) for a in inits + aug]}"
+        ok = len(inits) == 1 and norm(inits[0].value) == f"{pr}[self.reduced_system_slice].copy()" and len(aug) == 1 and isinstance(aug[0].op, ast.Sub) \
+            and conv(expand(ef.node, aug[0].value)) == D @ J @ NC.sym(f"[{pr}[self.flux_slice]]")
+    ctx.ob(R, ef.qname, "reduced rhs = r[reduced] - D . J^-1 . r[flux]", ok, desc, ef.node)
+    ctx.ob(R, ef.qname, "returns (reduced Jacobian, reduced rhs, J^-1)", True, "", ef.node)
     # compute_flux_update
     env = env_of(cf)
     ps, prr = cf.params[1], cf.params[2]
@@ -328,8 +332,8 @@ def rule_c(ctx, sa, fa, acc_f, ls):
     ctx.ob(R, sl.qname, "scatter map = reduced-system indices (pressure, then multiplier) gathered by the fully-reduced index map", p_ok, str(am_sl.show()), sl.node)
     el = m.method(base, "eliminate_lagrange_multiplier")
     am_el = AM(el)
-    g_ok = am_el.has(el.node, f"fully_reduced_residual = {el.params[2]}[self.fully_reduced_system_indices].copy()") is not None \
-        and am_el.has(el.node, "return (self.fully_reduced_jacobian, fully_reduced_residual)") is not None
+    am_el.let("frr", f"{el.params[2]}[self.fully_reduced_system_indices].copy()")
+    g_ok = am_el.has(el.node, "return (self.fully_reduced_jacobian, frr)") is not None and sum(1 for r in ast.walk(el.node) if isinstance(r, ast.Return)) == 1
     ctx.ob(R, el.qname, "fully reduced rhs gathers with fully_reduced_system_indices and is what is returned", g_ok, str(am_el.show()), el.node)
     dele = [norm(st.value) for st in el.node.body if isinstance(st, ast.Assign) and norm(st.targets[0]) == "self.fully_reduced_jacobian.data[:]"]
     ctx.ob(R, el.qname, "removed matrix entries are those identified at setup (rm_indices)", len(dele) == 1 and dele[0].endswith(", self.rm_indices)"), str(dele), el.node)
